@@ -284,6 +284,9 @@ func IsKnown(id string) bool {
 
 var registry = map[string]*Check{}
 
+// Extra holds additional subcommands of the vcheck binary (e.g. the free-running race pass).
+var Extra = map[string]func(args []string){}
+
 // Register adds a check.
 func Register(c *Check) { registry[c.ID] = c }
 
@@ -304,6 +307,10 @@ func Main() {
 	}
 	if args[0] == "replay" {
 		replayMain(args[1:])
+		return
+	}
+	if f, ok := Extra[args[0]]; ok {
+		f(args[1:])
 		return
 	}
 	if args[0] == "list" {
